@@ -48,7 +48,11 @@ def guarded(check_case):
         except Exception as e:
             import traceback
             tb = traceback.extract_tb(e.__traceback__)
-            where = next((fr for fr in reversed(tb) if "/jellyfysh/" in fr.filename), tb[-1])
+            inside = [fr for fr in tb if "/jellyfysh/" in fr.filename and "/jfv/" not in fr.filename]
+            if not inside:
+                raise HarnessError("exception in the checking code itself (no frame of the code under test): %r\n%s"
+                                   % (e, "".join(traceback.format_tb(e.__traceback__)[-3:])))
+            where = inside[-1]
             return None, [("uncaught-exception", "%r raised at %s:%d (%s) on case %r"
                            % (e, where.filename, where.lineno, where.name, case))]
     return f
